@@ -293,6 +293,9 @@ def compare_module(acc: Acc, case: dict, s, module, source: str, by_span: dict, 
 		if not vals:
 			acc.see('skipped', type(n).__name__)
 			continue
+		if n.tokens.startswith('StopIteration'):
+			acc.see('skipped', 'StopIteration (not in the stub library)')
+			continue
 		try:
 			text = ClassShorthandNaming.domain_name_for_debug(s.reflections.type_of(n))
 		except Errors.Error as e:
@@ -359,6 +362,103 @@ def classify(v: dict) -> str | None:
 	return None
 
 
+PROTOCOLS = '''from collections.abc import Iterator
+
+
+class Account:
+	owner: str
+	balance: float
+
+	def __init__(self, owner: str, balance: float) -> None:
+		self.owner = owner
+		self.balance = balance
+
+	def history(self) -> list[int]:
+		return [1, 2]
+
+
+class Countdown:
+	n: int
+
+	def __init__(self, n: int) -> None:
+		self.n = n
+
+	def __iter__(self) -> 'Countdown':
+		return self
+
+	def __next__(self) -> int:
+		if self.n <= 0:
+			raise StopIteration()
+
+		self.n = self.n - 1
+		return self.n
+
+
+class Evens:
+	limit: int
+
+	def __init__(self, limit: int) -> None:
+		self.limit = limit
+
+	def __iter__(self) -> Iterator[int]:
+		return iter([n * 2 for n in range(self.limit)])
+
+
+def find(accounts: list[Account], owner: str) -> None | Account:
+	for account in accounts:
+		if account.owner == owner:
+			return account
+
+	return None
+
+
+def find_usual(accounts: list[Account], owner: str) -> Account | None:
+	for account in accounts:
+		if account.owner == owner:
+			return account
+
+	return None
+
+
+def protocols(flag: bool) -> int:
+	total = 0
+	for tick in Countdown(3):
+		last = tick
+		total = total + tick
+
+	ticks = [t for t in Countdown(2)]
+	pairs = {str(t): t for t in Countdown(2)}
+	for even in Evens(2):
+		seen = even
+
+	accounts = [Account('ann', 1.5), Account('bob', 2.5)]
+	hit = find(accounts, 'bob')
+	hit_owner = hit.owner if hit else ''
+	hit_balance = hit.balance if hit else 0.0
+	hit_first = hit.history()[0] if hit else 0
+	miss = find(accounts, 'zed')
+	miss_owner = miss.owner if miss else ''
+	usual = find_usual(accounts, 'ann')
+	usual_owner = usual.owner if usual else ''
+	cached = None if flag else accounts
+	first = cached[0] if cached else accounts[0]
+	late: None | Account = accounts[0]
+	late_balance = late.balance if late else 0.0
+	xs = [1, 2]
+	ys = ['a']
+	pick = xs if flag else ys
+	d1 = {'k': 1}
+	d2 = {'k': 1.5}
+	dpick = d1 if flag else d2
+	t1 = (1, 'a')
+	t2 = ('a', 1)
+	tpick = t1 if flag else t2
+	opt_a = 1 if flag else None
+	opt_b = None if flag else 'x'
+	return total
+'''
+
+
 def operator_matrix() -> tuple[str, list]:
 	"""Deterministic program: every arithmetic operator over every pair of {int, float, bool} operands, every pair of operators in a
 	flat three-operand chain over int and int/float operands, unary minus, comparisons - each typed by CPython at run time."""
@@ -422,6 +522,11 @@ def shard(ctx: Ctx, acc: Acc) -> None:
 		src, entries = operator_matrix()
 		acc.see('generator', 'operator-matrix')
 		check_program(acc, {'source': src, 'entries': entries})
+	if ctx.shard == 2 % ctx.nshards:
+		# protocol fixture: user iterator classes, optionals written None-first, conditional expressions over differently
+		# instantiated generics - executed with the condition both ways
+		acc.see('generator', 'protocol-fixture')
+		check_program(acc, {'source': PROTOCOLS, 'entries': [['protocols', [[True], [False]]]]})
 	for i in range(n):
 		if not ctx.mine(i):
 			continue
